@@ -731,6 +731,81 @@ def h_cursor_next(how):
     return h
 
 
+def h_cursor_nth(how):
+    """nth(n) of a cursor iterator: Some(x) -- x is the stated projection of the element the cursor passed last,
+    and exactly n + 1 elements were passed; None -- the iterator is exhausted and at most n elements were passed.
+    (How many were passed is counted in the state: ghost counter ('adv', container).)  A draining iterator must
+    leave nothing it owns alive behind the cursor."""
+    def h(ctx, p):
+        nm = ctx.body.name
+        c0 = cursor_of(p.E, p.self0)
+        c1 = cursor_of(p.E, final_self(p))
+        if c0 is None or c1 is None:
+            ctx.req('OUT', False, nm, 'cannot find the slice cursor inside the iterator', p)
+            return
+        mid, f0, b0, _ = c0
+        _, f1, b1, _ = c1
+        z = p.z
+        ms = p.st.maps[mid]
+        owned = how.startswith('owned')
+        n = p.args0[1][1] if len(p.args0) > 1 and p.args0[1][0] == 'int' else None
+        g = p.st.ghost.get(('adv', mid))
+        passed = g[0] if g else 0
+        ctx.req('OUT', z.entails_eq(b1, b0), nm, 'nth must not touch the back end of the iterator', p)
+        if owned:
+            lo, hi = ms.extra_rng
+            ctx.req('ONCE', slots.empty(z, ms.extra_rng) or z.entails_le(f1, lo), nm,
+                    'a draining iterator must destroy (or hand out) every element it steps over: nothing it owns may '
+                    'stay alive behind the cursor', p)
+        if is_none(p.val):
+            ctx.classes['none'] += 1
+            ctx.req('OUT', z.entails_le(b1, f1), nm + ':none', 'None may be returned only when the iterator is exhausted afterwards', p)
+            short = any(e[0] == 'nth-short' for e in p.events)
+            ctx.req('ONCE', short or (n is not None and z.entails_le(passed, n)), nm + ':none',
+                    'None may be returned only when fewer than n + 1 elements remained (passed: %s)' % (passed,), p)
+            return
+        ctx.classes['some'] += 1
+        item = some_of(p.val)
+        last = slots.plus(p.st, f1, -1) if not isinstance(f1, int) else f1 - 1
+        # the element the cursor passed last is the one right in front of the cursor
+        idx = None
+        for v in p.st.zone.vars:
+            if isinstance(v, Term) and z.entails_eq(f1, v, 1):
+                idx = v
+                break
+        ok = item is not None and idx is not None and proj_ok(p, item, mid, idx, how)
+        ctx.req('OUT', ok, nm + ':some', 'the item must be the stated projection of the element right in front of the cursor', p)
+        ctx.req('ONCE', n is not None and z.entails_eq(passed, n, 1), nm + ':some',
+                'exactly n + 1 elements must have been passed (n skipped, one yielded; passed: %s)' % (passed,), p)
+    return h
+
+
+def h_cursor_last(how):
+    """last() of a borrowing cursor iterator: the stated projection of the last remaining slot, None iff empty"""
+    def h(ctx, p):
+        nm = ctx.body.name
+        c0 = cursor_of(p.E, p.self0)
+        if c0 is None:
+            ctx.req('OUT', False, nm, 'cannot find the slice cursor inside the iterator', p)
+            return
+        mid, f0, b0, _ = c0
+        z = p.z
+        if is_none(p.val):
+            ctx.classes['none'] += 1
+            ctx.req('OUT', z.entails_le(b0, f0), nm + ':none', 'None may be returned only when no element remains', p)
+            return
+        ctx.classes['some'] += 1
+        item = some_of(p.val)
+        idx = None
+        for v in p.st.zone.vars:
+            if isinstance(v, Term) and z.entails_eq(b0, v, 1):
+                idx = v
+                break
+        ok = item is not None and idx is not None and proj_ok(p, item, mid, idx, how) and z.entails_lt(f0, b0)
+        ctx.req('OUT', ok, nm + ':some', 'the item must be the stated projection of the LAST remaining slot', p)
+    return h
+
+
 def h_cursor_count(kind):
     """size_hint / len / count of a slice-cursor iterator: exactly the number of remaining elements"""
     def h(ctx, p):
@@ -2374,6 +2449,8 @@ def _pulled_next(e):
 
 def _item_of_next(e):
     if e[0] == 'next':
+        if isinstance(e[1], tuple) and len(e[1]) == 2 and e[1][0] == 'opqit':
+            return ('elem', e[1][1])        # an element of the (tracked) source array
         return ('item', e[1])
     return ('u' if e[0] == 'user' else 'c', e[1], e[2])
 
@@ -2461,6 +2538,39 @@ def h_pop_fold(ctx, p):
 
 # fold roots of single-cursor iterators: advances and closure calls are counted in the state
 ADV_TRACK = set()
+# nth of the consuming (pop) iterators: pops (len going down by one) are counted in the state
+POP_TRACK = set()
+
+
+def h_pop_nth(how):
+    """nth(n) of a consuming iterator that pops from the back: Some(x) -- exactly n + 1 elements were popped and x
+    is the stated projection of the one popped last; None -- nothing is left and at most n were popped.  (That
+    every popped element is destroyed or handed out exactly once is the business of the safety rules.)"""
+    def h(ctx, p):
+        nm = ctx.body.name
+        mid = map_in(p.E, p.self0)
+        if mid is None:
+            ctx.req('OUT', False, nm, 'cannot find the owned container inside the iterator', p)
+            return
+        ms = p.st.maps[mid]
+        z = p.z
+        n = p.args0[1][1] if len(p.args0) > 1 and p.args0[1][0] == 'int' else None
+        g = p.st.ghost.get(('pop', mid))
+        popped = g[0] if g else 0
+        reads = [e for e in p.events if e[0] == 'read' and e[1] == mid]
+        if is_none(p.val):
+            ctx.classes['none'] += 1
+            ctx.req('OUT', z.entails_eq(ms.len, 0), nm + ':none', 'None may be returned only when nothing is left', p)
+            ctx.req('ONCE', n is not None and z.entails_le(popped, n), nm + ':none',
+                    'None may be returned only when fewer than n + 1 elements were there (popped: %s)' % (popped,), p)
+            return
+        ctx.classes['some'] += 1
+        item = some_of(p.val)
+        ok = bool(reads) and z.entails_eq(reads[-1][2], ms.len) and item is not None and proj_ok(p, item, mid, reads[-1][2], how)
+        ctx.req('OUT', ok, nm + ':some', 'the item must be the stated projection of the element popped last', p)
+        ctx.req('ONCE', n is not None and z.entails_eq(popped, n, 1), nm + ':some',
+                'exactly n + 1 elements must have been popped (n skipped, one yielded; popped: %s)' % (popped,), p)
+    return h
 
 
 # roots in which the user callable must be called at most once per stored element (tracked by the interpreter:
@@ -2504,6 +2614,7 @@ ITER_HOOKS = {
     (UNION, 'Iterator', 'fold'): ({'C08'}, merge_iteration('fold'), {'folded', 'dropped'}),
     (SYMDIFF, 'Iterator', 'fold'): ({'C08'}, merge_iteration('fold'), {'folded', 'dropped'}),
     (UNION, 'Iterator', 'count'): ({'C08'}, merge_iteration('count'), {'counted', 'skipped'}),
+    (SYMDIFF, 'Iterator', 'count'): ({'C08'}, merge_iteration('count'), {'counted', 'skipped'}),
     (DIFF, 'Iterator', 'count'): ({'C08'}, merge_iteration('count'), {'counted', 'skipped'}),
     (DIFFREF, 'Iterator', 'count'): ({'C08'}, merge_iteration('count'), {'counted', 'skipped'}),
     (INTER, 'Iterator', 'count'): ({'C08'}, merge_iteration('count'), {'counted', 'skipped'}),
@@ -2551,6 +2662,51 @@ def h_bulk_result(ctx, p):
     okc, bad = bulk_source_ok(p.E, ctx.body, p.events)
     ctx.req('FLOW', okc, nm, 'the whole source must be consumed front to back: no adaptor or call that could drop, skip '
             'or reorder items may stand between the source and the loop (offending call: %s)' % (bad[1] if bad else None), p)
+    ctx.req('FLOW', _source_exhausted(p), nm,
+            'the result may be returned only when the source has nothing left: its last answer was None, or (an array) '
+            'all N elements were pulled', p)
+
+
+def _source_exhausted(p):
+    """the last pull on the path answered None, or every element of the source array was pulled (ghost counter)"""
+    z = p.z
+    for k, g in p.st.ghost.items():
+        if isinstance(k, tuple) and k and k[0] == 'pull':
+            # a tracked array source: pulled == N ?
+            n = _array_len_of(p, k[1])
+            if n is not None and z.entails_eq(g[0], n):
+                return True
+    last = None
+    for e in p.events:
+        if e[0] == 'next' and e[-1] in ('Some', 'None'):
+            last = e[-1]
+        elif e[0] == 'variant' and isinstance(e[1], tuple) and len(e[1]) > 1 and isinstance(e[1][1], str) \
+                and (e[1][1].endswith('::next') or e[1][1].endswith('::next_entry') or e[1][1].endswith('::next_element')
+                     or e[1][1].endswith('::next_key')):
+            last = 'None' if e[2] == 0 else 'Some'
+        elif e[0] == 'cb-exit':
+            last = 'None'
+    if last == 'None':
+        return True
+    # a source that is consumed by handing a closure to it (for_each / fold on a user iterator) ends when it says so
+    if any(e[0] == 'cb-invoke' for e in p.events) or any(e[0] == 'user' and any(e[1].endswith(x) for x in
+                                                         ('Iterator::for_each', 'Iterator::fold', 'Iterator::try_for_each'))
+                                                         for e in p.events):
+        return True
+    # nothing was ever pulled on this path and nothing is known: an empty array source
+    for t in arg_tags(p.body).values():
+        n = _array_len_of(p, t)
+        if n is not None and z.entails_eq(n, 0):
+            return True
+    return False
+
+
+def _array_len_of(p, tag):
+    """length term of the source array with provenance `tag` (from the entry values of the root)"""
+    for a in (p.args0 or ()):
+        if isinstance(a, tuple) and a and a[0] == 'oarr' and a[1] == tag:
+            return a[2]
+    return None
 
 
 # ------------------------------------------------------------------------------ len / is_empty / capacity / constructors
@@ -2753,7 +2909,7 @@ for _path in (ITER, ITERMUT):
 for _path in (KEYS, VALUES, VALUESMUT, SETITER):
     HANDLERS[(_path, IT, 'count')] = ({'C09'}, h_cursor_count('count'))
     OPTIONAL.add((_path, IT, 'count'))
-for _path in (DIFF, DIFFREF, INTER):
+for _path in (DIFF, DIFFREF, INTER, SYMDIFF):
     OPTIONAL.add((_path, 'Iterator', 'count'))
 for _path, _how in ((ITER, 'pair'), (ITERMUT, 'pair'), (KEYS, 'key'), (VALUES, 'value'), (VALUESMUT, 'value'),
                     (SETITER, 'key')):
@@ -2762,6 +2918,14 @@ for _path, _how in ((ITER, 'pair'), (ITERMUT, 'pair'), (KEYS, 'key'), (VALUES, '
     CLASSES[(_path, IT, 'fold')] = {'folded-all'}
     OPTIONAL.add((_path, IT, 'fold'))
     ADV_TRACK.add((_path, IT, 'fold'))
+for _path, _how in ((ITER, 'pair'), (ITERMUT, 'pair'), (KEYS, 'key'), (VALUES, 'value'), (VALUESMUT, 'value'),
+                    (SETITER, 'key')):
+    HANDLERS[(_path, IT, 'nth')] = ({'C09'}, h_cursor_nth(_how))
+    HANDLERS[(_path, IT, 'last')] = ({'C09'}, h_cursor_last(_how))
+    for _m in ('nth', 'last'):
+        OPTIONAL.add((_path, IT, _m))
+        CLASSES[(_path, IT, _m)] = {'none', 'some'}
+    ADV_TRACK.add((_path, IT, 'nth'))
 for _path in (ITER, KEYS, VALUES, SETITER):
     HANDLERS[(_path, 'Clone', 'clone')] = ({'C09'}, h_iter_clone)
 for _path, _how in ((DRAIN, 'owned-pair'), (SETDRAIN, 'owned-key')):
@@ -2782,9 +2946,20 @@ for _path, _how in ((DRAIN, 'owned-pair'), (SETDRAIN, 'owned-key')):
     ADV_TRACK.add((_path, IT, 'fold'))
     HANDLERS[(_path, IT, 'count')] = ({'C10'}, h_cursor_count('count'))
     OPTIONAL.add((_path, IT, 'count'))
+for _path, _how in ((DRAIN, 'owned-pair'), (SETDRAIN, 'owned-key')):
+    HANDLERS[(_path, IT, 'nth')] = ({'C10'}, h_cursor_nth(_how))
+    OPTIONAL.add((_path, IT, 'nth'))
+    CLASSES[(_path, IT, 'nth')] = {'none', 'some'}
+    ADV_TRACK.add((_path, IT, 'nth'))
 for _path in (INTOKEYS, INTOVALUES, SETINTOITER):
     HANDLERS[(_path, IT, 'count')] = ({'C10'}, h_pop_count('count'))
     OPTIONAL.add((_path, IT, 'count'))
+for _path, _how in ((INTOITER, 'owned-pair'), (INTOKEYS, 'owned-key'), (INTOVALUES, 'owned-value'),
+                    (SETINTOITER, 'owned-key')):
+    HANDLERS[(_path, IT, 'nth')] = ({'C10'}, h_pop_nth(_how))
+    OPTIONAL.add((_path, IT, 'nth'))
+    CLASSES[(_path, IT, 'nth')] = {'none', 'some'}
+    POP_TRACK.add((_path, IT, 'nth'))
 for _path in (INTOITER, INTOKEYS, INTOVALUES, SETINTOITER):
     HANDLERS[(_path, IT, 'fold')] = ({'C10'}, h_pop_fold)
     ITER_HOOKS[(_path, IT, 'fold')] = ({'C10'}, pop_fold_iteration, {'folded'})
@@ -2849,6 +3024,7 @@ HANDLERS.update({
     (SYMDIFF, 'Iterator', 'next'): ({'C08'}, h_merge_next),
     (SYMDIFF, 'Iterator', 'size_hint'): ({'C08'}, h_merge_hint),
     (SYMDIFF, 'Iterator', 'fold'): ({'C08'}, h_merge_fold),
+    (SYMDIFF, 'Iterator', 'count'): ({'C08'}, h_merge_count),
     (MAP, None, 'len'): ({'C05', 'C01'}, h_len),
     (SET, None, 'len'): ({'C05', 'C07'}, h_len),
     (MAP, None, 'is_empty'): ({'C05'}, h_is_empty),
